@@ -133,6 +133,35 @@ func (r *run) runCB(vm *goja.Runtime, id int, viaJS bool) {
 			cb := op.A
 			ok := r.loop.RunOnLoop(func(vm *goja.Runtime) { r.runCB(vm, cb, false) })
 			r.s.effect("aux_result", sid, b2i(ok))
+		case "go_settimeout", "go_setinterval":
+			kind := op.Kind[3:] // settimeout | setinterval
+			sid := r.newSub(fmt.Sprintf("start_%s:%d:%d", kind[3:], op.A, op.B))
+			cb := op.A
+			r.mu.Lock()
+			r.setAt[cb], r.delayOf[cb] = time.Now(), op.B
+			if kind == "setinterval" {
+				r.interval[cb], r.maxTicks[cb] = "go", 1+cb%3
+			}
+			r.mu.Unlock()
+			var h interface{}
+			if kind == "settimeout" {
+				if t := r.loop.SetTimeout(func(vm *goja.Runtime) { r.runCB(vm, cb, false) }, time.Duration(op.B)*time.Millisecond); t != nil {
+					h = t
+				}
+			} else {
+				if i := r.loop.SetInterval(func(vm *goja.Runtime) { r.runCB(vm, cb, false) }, time.Duration(op.B)*time.Millisecond); i != nil {
+					h = i
+				}
+			}
+			if h != nil {
+				r.mu.Lock()
+				r.handles[cb] = h
+				r.mu.Unlock()
+				r.s.effMu.Lock()
+				r.s.objID[h] = cb
+				r.s.effMu.Unlock()
+			}
+			r.s.effect("aux_result", sid, b2i(h != nil))
 		case "js_timeout", "js_interval":
 			fn := map[string]string{"js_timeout": "setTimeout", "js_interval": "setInterval"}[op.Kind]
 			r.mu.Lock()
@@ -381,12 +410,18 @@ func genScenario(r *lib.Rand, profile string) *scenario {
 				t := genCB(depth+1, true)
 				timers = append(timers, t)
 				ops = append(ops, cbOp{"js_immediate", t, 0})
-			case k < 10:
+			case k < 9:
 				if len(timers) > 0 {
 					ops = append(ops, cbOp{"js_clear", timers[r.Intn(len(timers))], r.Intn(3)})
 				}
+			case k < 10:
+				if r.Chance(70) {
+					ops = append(ops, cbOp{"go_settimeout", genCB(depth+1, false), r.Intn(3)})
+				} else {
+					ops = append(ops, cbOp{"go_setinterval", genCB(2, false), 1 + r.Intn(2)})
+				}
 			case k < 11:
-				if profile == "stop" || profile == "count" {
+				if profile == "stop" || profile == "count" || r.Chance(35) {
 					ops = append(ops, cbOp{"stopnowait", 0, 0})
 				}
 			default:
@@ -437,7 +472,7 @@ func genScenario(r *lib.Rand, profile string) *scenario {
 					}
 				}
 			default:
-				if profile == "stop" {
+				if profile == "stop" || r.Chance(35) {
 					ops = append(ops, actOp{"stopnowait", 0, 0})
 				}
 			}
@@ -652,7 +687,7 @@ var effNames = map[string]string{"js_timeout": "e_js_timeout", "js_interval": "e
 	"js_immediate": "e_js_immediate", "js_clear": "e_js_clear", "delivered_timeout": "e_delivered_timeout", "delivered_tick": "e_delivered_tick",
 	"delivered_remove": "e_delivered_remove"}
 var obsNames = map[string]string{"cb_start": "o_cb_start", "cb_end": "o_cb_end", "aux_result": "o_aux_result", "ctl_stop_returned": "o_stop_returned",
-	"ctl_run_returned": "o_run_returned"}
+	"ctl_run_returned": "o_run_returned", "ctl_terminate_returned": "o_terminate_returned"}
 
 func coqCase(sc *scenario, r *run) string {
 	r.s.resolve()
